@@ -164,6 +164,16 @@ var c15ops = []c15op{
 	{"Batch5Good", nil, func() string { return batchCall(5, -1) }},
 	{"Batch65", nil, func() string { return batchCall(65, -1) }},
 	{"Batch3", nil, func() string { return batchCall(3, -1) }},
+	{"Batch5FailingEntropy", nil, func() string {
+		f := fixtures()
+		all, valid, err := ed25519.VerifyBatch(failingReader{}, f.batchPub[:5], f.batchMsg[:5], f.batchSig[:5], &ed25519.Options{})
+		return dig(all, valid, err != nil)
+	}},
+	{"Batch70ShortEntropy", nil, func() string {
+		f := fixtures()
+		all, valid, err := ed25519.VerifyBatch(bytes.NewReader(make([]byte, 64*16+7)), f.batchPub[:70], f.batchMsg[:70], f.batchSig[:70], &ed25519.Options{})
+		return dig(all, valid, err != nil)
+	}},
 	{"GenerateKey", nil, func() string {
 		f := fixtures()
 		p, k, e := ed25519.GenerateKey(bytes.NewReader(f.seed))
@@ -180,6 +190,10 @@ var c15ops = []c15op{
 		return dig(f.priv.Equal(f.priv), f.priv.Equal(ed25519.PrivateKey(f.std[:63])), f.pub.Equal(f.pub))
 	}},
 }
+
+type failingReader struct{}
+
+func (failingReader) Read(p []byte) (int, error) { return 0, fmt.Errorf("entropy source failed") }
 
 // ---- child process protocol -----------------------------------------------------------------------------
 
@@ -440,6 +454,10 @@ func c15scenarios(thorough bool) []scenario {
 		{"GenerateKey", "NewKeyFromSeed", "NewKeyFromSeed", "GenerateKey"}, {"Batch3", "Batch65", "Batch65", "Batch3"}, {"Batch4OneBad", "Batch4Good", "VerifyBad", "VerifyGood"},
 		{"SignPh", "SignPure", "Batch5Good", "Batch65"}, {"EdPublicKeyToX25519", "X25519Base", "EdPrivateKeyToX25519", "X25519Generic"}, {"VerifyGood", "VerifyBadSigSameKeyMsg", "VerifyKeySignBitFlipped", "VerifyGood"}} {
 		out = append(out, scenario{[][]int{{ix(q[0]), ix(q[1])}, {ix(q[2]), ix(q[3])}}})
+	}
+	// history then concurrency: every operation once, followed by concurrent verifications / signatures
+	for o := range c15ops {
+		out = append(out, scenario{[][]int{{o, ix("VerifyGood")}, {ix("VerifyGood"), ix("SignPure")}}})
 	}
 	return out
 }
@@ -710,7 +728,7 @@ func jobC15race(c *rt.Ctx) {
 					v = v[:i]
 				}
 			}
-			c.Violation(fmt.Sprintf("C15 race-detector %s", v), fmt.Sprintf("scenario %s: the Go race detector reports a data race in free-running goroutines", name), map[string]interface{}{"scenario": name, "frames": keep, "report": tail(stderr)})
+			c.Violation("C15 race-detector DATA RACE", fmt.Sprintf("scenario %s: the Go race detector reports a data race in free-running goroutines (first library frame: %s)", name, v), map[string]interface{}{"scenario": name, "frames": keep, "report": tail(stderr)})
 		} else if err != nil {
 			c.Violation("C15 race-pass child-crash", fmt.Sprintf("scenario %s: free-running execution failed: %v", name, err), map[string]interface{}{"scenario": name, "stderr": tail(stderr)})
 		}
